@@ -78,6 +78,11 @@ def prelude() -> List[Tuple[str, str, Any]]:
         ax.append((name, why, f))
 
     # ---- integer helpers
+    pow2 = z3.Function("pow2", I, I)
+    add("pow2-table", "definitional: pow2(k) = 2**k, evaluated for k = 0..130",
+        And(*[pow2(z3.IntVal(kk)) == z3.IntVal(2 ** kk) for kk in range(0, 131)]))
+    add("pow2-pos", "Lean: Nat.pos_pow_of_pos; monotone (Nat.pow_le_pow_right)",
+        FA([k], Imp(k >= 0, pow2(k) >= 1), patterns=[pow2(k)]))
     add("pmod-def", "definitional: pmod(x,d) is x mod d for d > 0",
         FA([x, d], Imp(d > 0, And(pmod(x, d) == x % d, pmod(x, d) >= 0, pmod(x, d) < d)), patterns=[pmod(x, d)]))
     add("pad-def", "definitional (Lean Pydsdl.pad): pad r x = (x + r - 1) / r * r; with Basic.pad_dvd, le_pad, pad_lt",
